@@ -262,11 +262,14 @@ func (o *optimizer) etaReduction() {
 	// and the reduced func literal must have the identical type
 	stableFun := func(ctx astmatcher.Ctx, lit ast.Node, fun ast.Expr) bool {
 		callee := fun
+		typeArgs := 0 // explicit type arguments
 		switch idx := callee.(type) {
 		case *ast.IndexExpr:
 			callee = idx.X
+			typeArgs = 1
 		case *ast.IndexListExpr:
 			callee = idx.X
+			typeArgs = len(idx.Indices)
 		}
 
 		var id *ast.Ident
@@ -305,8 +308,8 @@ func (o *optimizer) etaReduction() {
 			if !ok || sig.Recv() != nil {
 				return false
 			}
-			// generic func called with inferred type arguments can't be a value
-			if sig.TypeParams().Len() > 0 && callee == fun {
+			// generic func called with (partially) inferred type arguments can't be a value
+			if sig.TypeParams().Len() != typeArgs {
 				return false
 			}
 		}
